@@ -413,7 +413,7 @@ class TriggerHandler:
             while current is not None:
                 if current.f_code.co_flags & 0x1:
                     # (CO_OPTIMIZED: a function. For a module or a class body f_locals is the namespace itself.)
-                    read.append((id(current), current.f_locals))
+                    read.append((id(current), current.f_locals, current.f_code))
                     if current is not frame:
                         of_callers[id(current)] = True
                 current = current.f_back if with_callers else None
@@ -444,11 +444,19 @@ class TriggerHandler:
             of_callers = state.get('of_callers')
             again = False
             while read:
-                owner, mapping = read.pop()
+                owner, mapping, code = read.pop()
+                emptied = False
                 if type(mapping) is dict and sys.getrefcount(mapping) <= 3:
-                    mapping.clear()
-                if frame is not None and owner == id(frame):
+                    # only the variables of the function: what the application keeps in the mapping itself (names
+                    # bound by exec() in a function, locals()[k] = v) is not in the frame, and would be lost
+                    for name in code.co_varnames + code.co_cellvars + code.co_freevars:
+                        mapping.pop(name, None)
+                    emptied = True
+                if emptied and frame is not None and owner == id(frame):
                     again = True
+                elif not emptied and of_callers is not None:
+                    # the application holds it (locals()): it is not ours to fill again, at no later event either
+                    of_callers.pop(owner, None)
                 del mapping
             if of_callers is not None and frame is not None and of_callers.pop(id(frame), None):
                 again = True
@@ -456,10 +464,11 @@ class TriggerHandler:
                 state.pop('of_callers', None)
             if again and frame.f_code.co_flags & 0x1:
                 mapping = frame.f_locals
-                if event != 'return':
+                if event != 'return' or frame.f_code.co_flags & 0x2A0:
+                    # (but a generator / coroutine only yields with 'return': it keeps its variables, and goes on)
                     # (a function that returns releases its variables by itself, and before its caller goes on: we
                     # are not to hold them until the next event)
-                    self.__read_locals.read = [(id(frame), mapping)]
+                    self.__read_locals.read = [(id(frame), mapping, frame.f_code)]
         except BaseException:
             pass
 
